@@ -385,7 +385,7 @@ func runCase(cs *Case) *Obs {
 
 const (
 	clsU64       = "uint64-ge-2^63"        // uint / uint64 value >= 2^63 wraps to a negative Integer
-	clsNonFinite = "float-nonfinite"       // NaN, +Inf, -Inf are instances of no Float type
+	clsNonFinite = "float32-nonfinite"     // a float32 that is NaN, +Inf or -Inf: the type derived from float32 is the range of the finite float32 values (float64: no exclusion, its type is the unbounded Float type)
 	clsNilUndef  = "nil-slice-map-undef"   // nil slice / map wraps to undef, the derived type is Array / Hash
 	clsNilFast   = "nil-fastpath-empty"    // nil []int, []string, []interface{}, map[string]string, map[string]interface{} wrap to empty
 	clsPtrPtr    = "ptr-to-ptr"            // pointer to pointer
@@ -415,7 +415,7 @@ func classify(s *Shape, v *Val, pos byte, underPtr, inField, inIface bool, out *
 		if bigOf(v).Cmp(two63) >= 0 && !inIface {
 			add(clsU64)
 		}
-	case isFloatKind(s.K):
+	case s.K == "float32":
 		f := math.Float64frombits(fbits(v))
 		if (math.IsNaN(f) || math.IsInf(f, 0)) && !inIface {
 			add(clsNonFinite)
